@@ -47,6 +47,8 @@ def mustBeLocked : List (String × String × String) :=
    ("messagepickup.Service", "handleStatusRequest", "msgStore.Get"),
    ("wallet.walletSessionManager", "createSession", "gstore.GetALL"),
    ("wallet.walletSessionManager", "createSession", "gstore.SetWithExpire"),
+   ("wallet.walletSessionManager", "getSession", "gstore.Get"),
+   ("wallet.walletSessionManager", "getSession", "gstore.SetWithExpire"),
    ("wallet.walletSessionManager", "closeSession", "gstore.GetALL"),
    ("wallet.walletSessionManager", "closeSession", "gstore.Remove"),
    ("batchedstore.store", "Put", "underlyingStore.Batch"), ("batchedstore.store", "Delete", "underlyingStore.Batch"),
